@@ -234,7 +234,7 @@ theorem infoLoop_some (srv : Server) (hw : TableWF srv = true) (only16 : Bool) (
             rw [hprev] at h2
             obtain ⟨u, k, se, ce⟩ := x
             cases k with
-            | charDecl uuid wwr owwr ntf ind =>
+            | charDecl uuid wwr owwr ntf ind auto =>
               dsimp only at h2 ⊢
               have hl : uuid.length = 16 := of_decide_eq_true h2
               rw [if_pos ⟨hl, h1⟩]
